@@ -68,9 +68,9 @@ theorem mulVec_congr [Add K] [Mul K] [Sub K] [Zero K] (v w : View K) (hn : v.n =
 /-- the view of the `_f` entry points over the shifted arrays reads exactly what the view of the C entry
 points reads over the original arrays (same offsets, same values) — whatever the arrays contain -/
 theorem fortran_readers_eq (n : Nat) (ptr col : Array Int) (val : Array K) (pn : Int) :
-    let v1 : View K := { n := n, shift := 1, ptr := ptr.map (· + 1), col := col.map (· + 1), val := val,
+    let v1 : View K := { n := n, pshift := 1, cshift := 1, ptr := ptr.map (· + 1), col := col.map (· + 1), val := val,
                          ptrEnd := n + 1, colEnd := pn + 1, valEnd := pn + 1 }
-    let v0 : View K := { n := n, shift := 0, ptr := ptr, col := col, val := val,
+    let v0 : View K := { n := n, pshift := 0, cshift := 0, ptr := ptr, col := col, val := val,
                          ptrEnd := n + 1, colEnd := pn, valEnd := pn }
     (∀ i, v1.ptrAt i = v0.ptrAt i) ∧ (∀ j, v1.colAt j = v0.colAt j) ∧ (∀ j, v1.valAt j = v0.valAt j)
       ∧ v1.col.size = v0.col.size := by
@@ -108,7 +108,7 @@ theorem countLoop_eq : ∀ (f : Nat) (j : Int) (k : Nat), k ≤ f → countLoop 
 
 /-- reading a stretch `r` of a flat array: all reads in bounds, result `r` -/
 theorem readLoop_flat (v : View K) (L : List (Nat × K))
-    (hc : v.col = (L.map (fun (cv : Nat × K) => (cv.1 : Int) + v.shift)).toArray)
+    (hc : v.col = (L.map (fun (cv : Nat × K) => (cv.1 : Int) + v.cshift)).toArray)
     (hv : v.val = (L.map (fun (cv : Nat × K) => cv.2)).toArray) :
     ∀ (r pre post : List (Nat × K)) (f : Nat), L = pre ++ r ++ post → r.length ≤ f →
       v.readLoop f (pre.length : Int) ((pre.length : Int) + (r.length : Int))
@@ -245,7 +245,7 @@ variable {K : Type}
 
 /-- the view lib/amgcl.cpp builds over the arrays of `A` stored with index base `β` -/
 def crsView (β : Int) (A : CRS K) : View K :=
-  { n := A.nrows, shift := β, ptr := ptrArr β A, col := colArr β A, val := valArr A,
+  { n := A.nrows, pshift := β, cshift := β, ptr := ptrArr β A, col := colArr β A, val := valArr A,
     ptrEnd := (A.nrows : Int) + 1,
     colEnd := (A.rows.toList.flatten.length : Int) + β,
     valEnd := (A.rows.toList.flatten.length : Int) + β }
